@@ -6,16 +6,19 @@
   constants, variables and the unary/binary operators, ALL stores satisfying the flag invariant.
 -/
 import BlocV.Model.Store
+import BlocV.Proofs.Lemmas.Store
 
 namespace BlocV.C05
-open BlocV
+open BlocV BlocV.Lemmas
 
 /-- Frame: what evaluation must leave alone. -/
 def SameVarsCsts (σ σ' : Store) : Prop := σ'.vars = σ.vars ∧ σ'.csts = σ.csts
 
+/-- The invariant only depends on the variable and constant cells. -/
 theorem flagInv_of_same {σ σ' : Store} (h : FlagInv σ) (e : SameVarsCsts σ σ') : FlagInv σ' := by
   unfold FlagInv at *; rw [e.1, e.2]; exact h
 
+/-- Writing through a location whose LVALUE flag is clear touches no variable and no constant (under the invariant such a location is a temporary or does not exist). -/
 theorem set_frame (σ : Store) (ℓ : Loc) (c : Cell) (h : FlagInv σ) (hl : (σ.get ℓ).lv = false) :
     SameVarsCsts σ (σ.set ℓ c) := by
   cases ℓ with
@@ -43,14 +46,17 @@ theorem set_frame (σ : Store) (ℓ : Loc) (c : Cell) (h : FlagInv σ) (hl : (σ
     · exact List.set_eq_of_length_le (by omega)
   | tmp i => exact ⟨rfl, rfl⟩
 
+/-- `Context::allocate` touches only the pool. -/
 theorem alloc_frame (σ : Store) (v : Val) : SameVarsCsts σ (alloc σ v).2 := ⟨rfl, rfl⟩
 
+/-- `LVAL1` touches only temporaries. -/
 theorem lval1_frame (σ : Store) (v : Val) (a : Loc) (h : FlagInv σ) : SameVarsCsts σ (lval1 σ v a).2 := by
   unfold lval1
   split
   · rename_i hl; exact set_frame σ a _ h (by simpa using hl)
   · exact alloc_frame σ v
 
+/-- `LVAL2` touches only temporaries. -/
 theorem lval2_frame (σ : Store) (v : Val) (a b : Loc) (h : FlagInv σ) : SameVarsCsts σ (lval2 σ v a b).2 := by
   unfold lval2
   split
@@ -59,6 +65,7 @@ theorem lval2_frame (σ : Store) (v : Val) (a b : Loc) (h : FlagInv σ) : SameVa
     · rename_i _ hl; exact set_frame σ b _ h (by simpa using hl)
     · exact alloc_frame σ v
 
+/-- Every result placement of an operator touches only temporaries. -/
 theorem place_frame (σ : Store) (p : Place) (v : Val) (a b : Loc) (h : FlagInv σ) :
     SameVarsCsts σ (place σ p v a b).2 := by
   cases p
@@ -67,6 +74,7 @@ theorem place_frame (σ : Store) (p : Place) (v : Val) (a b : Loc) (h : FlagInv 
   · exact lval1_frame σ v a h
   · exact lval2_frame σ v a b h
 
+/-- The frame relation composes. -/
 theorem same_trans {a b c : Store} (h1 : SameVarsCsts a b) (h2 : SameVarsCsts b c) : SameVarsCsts a c :=
   ⟨h2.1.trans h1.1, h2.2.trans h1.2⟩
 
@@ -165,6 +173,7 @@ theorem constant_stable (e : LExpr) (σ σ' : Store) (ℓ : Loc) (i : Nat) (h : 
   have := (eval_frame e σ σ' ℓ h he).1.2
   simp [Store.get, this]
 
+/-- Corollary of the frame theorem: every variable slot reads the same before and after any successful evaluation. -/
 theorem variable_stable (e : LExpr) (σ σ' : Store) (ℓ : Loc) (i : Nat) (h : FlagInv σ)
     (he : evalL e σ = .ok (ℓ, σ')) : σ'.get (.var i) = σ.get (.var i) := by
   have := (eval_frame e σ σ' ℓ h he).1.1
@@ -187,7 +196,7 @@ theorem store_preserves (σ : Store) (i : Nat) (ℓ : Loc) (h : FlagInv σ) :
   have setvar_other : ∀ (v : Val) j, j ≠ i →
       (σ.set (.var i) { val := v, lv := true }).vars.getD j default = σ.vars.getD j default := by
     intro v j hj
-    simp [Store.set, List.getD, List.getElem?_set, Ne.symm hj]
+    simp [Store.set, List.getD, Ne.symm hj]
   unfold storeVar
   split
   · rename_i hl
@@ -231,5 +240,498 @@ example :
     let σ : Store := { vars := [], csts := [⟨.null Ty.none, false⟩, ⟨.bool true, true⟩], pool := [], wm := 0 }
     ∃ ℓ σ', evalL (.bin .bior (.cst 0) (.cst 1)) σ = .ok (ℓ, σ') ∧ (σ'.get (.cst 0)).val == .bool true := by
   exact ⟨_, _, rfl, rfl⟩
+
+/-! ### Refinement: storage-level evaluation computes the value-level result -/
+
+/-- The value-level semantics, tracking in addition *which named cell* a result is (`some (.var i)`,
+`some (.cst i)`) or that it is a fresh value (`none`). This is `LExpr.pure` (Model/Store.lean) plus the one
+thing a BLOC program can observe of storage: `==`/`!=` on tables and tuples compare *addresses*
+(op_eq.cpp `a1.collection() == a2.collection()`), so `t == t` is true while two equal-looking tables differ.
+Identity propagates through the operators that return an operand reference (`+x`, `-null`, `null + s`, …:
+`Lemmas.placeId`). Nothing here mentions the pool, the watermark or the LVALUE flag. -/
+def pureI (vars csts : List Val) : LExpr → Res (Val × Option Loc)
+  | .cst i => .ok (csts.getD i (.null Ty.none), some (.cst i))
+  | .var i => .ok (vars.getD i (.null Ty.none), some (.var i))
+  | .un op e =>
+    match pureI vars csts e with
+    | .ok (v, i) =>
+      (match evalUn op v with
+       | .ok r => .ok (r, placeId (unPlace op v) i i)
+       | .err c a => .err c a
+       | .haz h => .haz h
+       | .unmodelled => .unmodelled)
+    | .err c a => .err c a
+    | .haz h => .haz h
+    | .unmodelled => .unmodelled
+  | .bin op a b =>
+    match pureI vars csts a with
+    | .ok (v1, i1) =>
+      if !rightForced op v1 then
+        (match evalBin op v1 (.null Ty.none) with
+         | .ok r => .ok (r, none)
+         | .err c x => .err c x
+         | .haz h => .haz h
+         | .unmodelled => .unmodelled)
+      else
+        (match pureI vars csts b with
+         | .ok (v2, i2) =>
+           (match evalBin op v1 v2 (sameCell i1 i2) with
+            | .ok r => .ok (r, placeId (binPlace op v1 v2) i1 i2)
+            | .err c x => .err c x
+            | .haz h => .haz h
+            | .unmodelled => .unmodelled)
+         | .err c x => .err c x
+         | .haz h => .haz h
+         | .unmodelled => .unmodelled)
+    | .err c a => .err c a
+    | .haz h => .haz h
+    | .unmodelled => .unmodelled
+
+/-- Every variable / constant index of the expression exists. -/
+def WfIdx (nv nc : Nat) : LExpr → Prop
+  | .cst i => i < nc
+  | .var i => i < nv
+  | .un _ e => WfIdx nv nc e
+  | .bin _ a b => WfIdx nv nc a ∧ WfIdx nv nc b
+
+instance WfIdx.dec (nv nc : Nat) : (e : LExpr) → Decidable (WfIdx nv nc e)
+  | .cst i => inferInstanceAs (Decidable (i < nc))
+  | .var i => inferInstanceAs (Decidable (i < nv))
+  | .un _ e => WfIdx.dec nv nc e
+  | .bin _ a b => @instDecidableAnd _ _ (WfIdx.dec nv nc a) (WfIdx.dec nv nc b)
+
+/-- What is observable of a storage-level outcome: the value in the result cell and which named cell it is. -/
+def absRes : Res (Loc × Store) → Res (Val × Option Loc)
+  | .ok (ℓ, σ') => .ok ((σ'.get ℓ).val, cellId ℓ)
+  | .err c a => .err c a
+  | .haz h => .haz h
+  | .unmodelled => .unmodelled
+
+def vals (l : List Cell) : List Val := l.map (·.val)
+
+
+/-- Invariants of one evaluation, the induction behind `eval_refines`. -/
+theorem eval_refines_aux (e : LExpr) : ∀ (σ : Store), FlagInv σ → WfIdx σ.vars.length σ.csts.length e →
+    absRes (evalL e σ) = pureI (vals σ.vars) (vals σ.csts) e ∧
+    ∀ ℓ σ', evalL e σ = .ok (ℓ, σ') → Ext σ.wm σ σ' ∧ LocOK σ.wm σ' ℓ := by
+  induction e with
+  | cst i =>
+    intro σ hinv hwf
+    refine ⟨?_, ?_⟩
+    · simp only [evalL, absRes, pureI, cellId, vals]; rw [cst_val]
+    · intro ℓ σ' he
+      simp only [evalL] at he
+      cases he
+      exact ⟨Ext.refl _ _, hwf⟩
+  | var i =>
+    intro σ hinv hwf
+    refine ⟨?_, ?_⟩
+    · simp only [evalL, absRes, pureI, cellId, vals]; rw [var_val]
+    · intro ℓ σ' he
+      simp only [evalL] at he
+      cases he
+      exact ⟨Ext.refl _ _, hwf⟩
+  | un op e ih =>
+    intro σ hinv hwf
+    obtain ⟨ihr, ihx⟩ := ih σ hinv hwf
+    unfold evalL pureI
+    rw [← ihr]
+    cases h1 : evalL e σ with
+    | ok p =>
+      obtain ⟨ℓ1, σ1⟩ := p
+      obtain ⟨x1, k1⟩ := ihx ℓ1 σ1 h1
+      have inv1 := x1.flagInv hinv
+      simp only [absRes]
+      cases hv : evalUn op (σ1.get ℓ1).val with
+      | ok v =>
+        obtain ⟨px, pk, _⟩ := place_ok σ.wm σ1 (unPlace op (σ1.get ℓ1).val) v ℓ1 ℓ1 inv1 x1.wm k1 k1
+        refine ⟨?_, ?_⟩
+        · dsimp only [absRes]
+          rw [place_abs σ.wm σ1 _ v ℓ1 ℓ1 inv1 x1.wm k1 k1
+            (fun hp => unPlace_ret op _ v (Or.inl hp) hv) (fun hp => unPlace_ret op _ v (Or.inr hp) hv)]
+        · intro ℓ σ' he
+          obtain ⟨rfl, rfl⟩ := ok_pair he
+          exact ⟨x1.trans px, pk⟩
+      | err c a => exact ⟨rfl, fun _ _ he => by cases he⟩
+      | haz x => exact ⟨rfl, fun _ _ he => by cases he⟩
+      | unmodelled => exact ⟨rfl, fun _ _ he => by cases he⟩
+    | err c a => exact ⟨rfl, fun _ _ he => by cases he⟩
+    | haz x => exact ⟨rfl, fun _ _ he => by cases he⟩
+    | unmodelled => exact ⟨rfl, fun _ _ he => by cases he⟩
+  | bin op a b iha ihb =>
+    intro σ hinv hwf
+    obtain ⟨ihr, ihx⟩ := iha σ hinv hwf.1
+    unfold evalL pureI
+    rw [← ihr]
+    cases h1 : evalL a σ with
+    | ok p =>
+      obtain ⟨ℓ1, σ1⟩ := p
+      obtain ⟨x1, k1⟩ := ihx ℓ1 σ1 h1
+      have inv1 := x1.flagInv hinv
+      simp only [absRes]
+      by_cases hf : (!rightForced op (σ1.get ℓ1).val) = true
+      · rw [if_pos hf, if_pos hf]
+        cases hv : evalBin op (σ1.get ℓ1).val (Val.null Ty.none) with
+        | ok v =>
+          obtain ⟨px, pk, pv, j, pj⟩ := lval1_ok σ.wm σ1 v ℓ1 inv1 x1.wm k1
+          refine ⟨?_, ?_⟩
+          · dsimp only [absRes]; rw [pv, pj]; rfl
+          · intro ℓ σ' he
+            obtain ⟨rfl, rfl⟩ := ok_pair he
+            exact ⟨x1.trans px, pk⟩
+        | err c a => exact ⟨rfl, fun _ _ he => by cases he⟩
+        | haz x => exact ⟨rfl, fun _ _ he => by cases he⟩
+        | unmodelled => exact ⟨rfl, fun _ _ he => by cases he⟩
+      · rw [if_neg hf, if_neg hf]
+        have hwf2 : WfIdx σ1.vars.length σ1.csts.length b := by rw [x1.vars, x1.csts]; exact hwf.2
+        obtain ⟨ihr2, ihx2⟩ := ihb σ1 inv1 hwf2
+        rw [x1.vars, x1.csts] at ihr2
+        rw [← ihr2]
+        cases h2 : evalL b σ1 with
+        | ok q =>
+          obtain ⟨ℓ2, σ2⟩ := q
+          obtain ⟨x2, k2⟩ := ihx2 ℓ2 σ2 h2
+          have inv2 := x2.flagInv inv1
+          obtain ⟨k1', g1⟩ := k1.ext x2
+          have k2' : LocOK σ.wm σ2 ℓ2 := k2.mono x1.wm
+          have x12 : Ext σ.wm σ σ2 := x1.trans (x2.mono x1.wm)
+          simp only [absRes]
+          rw [sameCell_eq k1 k2, g1]
+          cases hv : evalBin op (σ1.get ℓ1).val (σ2.get ℓ2).val (ℓ1 == ℓ2) with
+          | ok v =>
+            obtain ⟨px, pk, _⟩ := place_ok σ.wm σ2 (binPlace op (σ1.get ℓ1).val (σ2.get ℓ2).val) v ℓ1 ℓ2 inv2 x12.wm k1' k2'
+            refine ⟨?_, ?_⟩
+            · dsimp only [absRes]
+              rw [place_abs σ.wm σ2 _ v ℓ1 ℓ2 inv2 x12.wm k1' k2'
+                (fun hp => by rw [g1]; exact binPlace_ret1 op _ _ v _ hp hv)
+                (fun hp => binPlace_ret2 op _ _ v _ hp hv)]
+            · intro ℓ σ' he
+              obtain ⟨rfl, rfl⟩ := ok_pair he
+              exact ⟨x12.trans px, pk⟩
+          | err c a => exact ⟨rfl, fun _ _ he => by cases he⟩
+          | haz x => exact ⟨rfl, fun _ _ he => by cases he⟩
+          | unmodelled => exact ⟨rfl, fun _ _ he => by cases he⟩
+        | err c a => exact ⟨rfl, fun _ _ he => by cases he⟩
+        | haz x => exact ⟨rfl, fun _ _ he => by cases he⟩
+        | unmodelled => exact ⟨rfl, fun _ _ he => by cases he⟩
+    | err c a => exact ⟨rfl, fun _ _ he => by cases he⟩
+    | haz x => exact ⟨rfl, fun _ _ he => by cases he⟩
+    | unmodelled => exact ⟨rfl, fun _ _ he => by cases he⟩
+
+/-- **Refinement.** Under the flag invariant, for every expression whose variable and constant indices
+exist, storage-level evaluation (`evalL`: operand reuse through LVAL1/LVAL2, pool slots, watermark —
+Expression::value(ctx) of the operator nodes) and the value-level semantics `pureI` agree: the same runtime
+error, the same hazard, the same "unmodelled", and on success the cell returned holds exactly the
+value-level result and is the same named cell (or a temporary where `pureI` says "fresh value"). -/
+theorem eval_refines (e : LExpr) (σ : Store) (hinv : FlagInv σ) (hwf : WfIdx σ.vars.length σ.csts.length e) :
+    absRes (evalL e σ) = pureI (vals σ.vars) (vals σ.csts) e :=
+  (eval_refines_aux e σ hinv hwf).1
+
+/-- **Pool discipline.** A successful evaluation changes no variable, no constant, and no temporary
+below the watermark it started from (`Lemmas.Ext`); the watermark and the pool only grow; the result is an
+existing variable slot, an existing constant cell, or a live temporary allocated by this very evaluation
+(`Lemmas.LocOK`: index in `[σ.wm, σ'.wm)`, LVALUE flag clear). -/
+theorem eval_pool_discipline (e : LExpr) (σ σ' : Store) (ℓ : Loc) (hinv : FlagInv σ)
+    (hwf : WfIdx σ.vars.length σ.csts.length e) (he : evalL e σ = .ok (ℓ, σ')) :
+    Ext σ.wm σ σ' ∧ LocOK σ.wm σ' ℓ :=
+  (eval_refines_aux e σ hinv hwf).2 ℓ σ' he
+
+/-- The value component of an identity-tracking outcome. -/
+def valOf : Res (Val × Option Loc) → Res Val
+  | .ok (v, _) => .ok v
+  | .err c a => .err c a
+  | .haz h => .haz h
+  | .unmodelled => .unmodelled
+
+/-- No `==` / `!=` node (the only operators that observe cell identity). -/
+def EqFree : LExpr → Prop
+  | .cst _ => True
+  | .var _ => True
+  | .un _ e => EqFree e
+  | .bin op a b => op ≠ .eq ∧ op ≠ .ne ∧ EqFree a ∧ EqFree b
+
+instance EqFree.dec : (e : LExpr) → Decidable (EqFree e)
+  | .cst _ => isTrue trivial
+  | .var _ => isTrue trivial
+  | .un _ e => EqFree.dec e
+  | .bin op a b =>
+    @instDecidableAnd (op ≠ .eq) _ inferInstance (@instDecidableAnd (op ≠ .ne) _ inferInstance
+      (@instDecidableAnd _ _ (EqFree.dec a) (EqFree.dec b)))
+
+/-- For expressions without `==`/`!=`, identity tracking is irrelevant: `pureI` is `LExpr.pure`. -/
+theorem pureI_eq_pure (vars csts : List Val) (e : LExpr) (h : EqFree e) :
+    valOf (pureI vars csts e) = LExpr.pure vars csts e := by
+  induction e with
+  | cst i => rfl
+  | var i => rfl
+  | un op e ih =>
+    unfold pureI LExpr.pure
+    rw [← ih h]
+    cases pureI vars csts e with
+    | ok p => obtain ⟨v, i⟩ := p; simp only [valOf]; cases evalUn op v <;> rfl
+    | err c a => rfl
+    | haz x => rfl
+    | unmodelled => rfl
+  | bin op a b iha ihb =>
+    obtain ⟨h1, h2, ha, hb⟩ := h
+    have hs : ∀ x y s, evalBin op x y s = evalBin op x y false := by
+      intro x y s; cases op <;> first | rfl | exact absurd rfl h1 | exact absurd rfl h2
+    unfold pureI LExpr.pure
+    rw [← iha ha]
+    cases pureI vars csts a with
+    | ok p =>
+      obtain ⟨v1, i1⟩ := p
+      simp only [valOf]
+      by_cases hf : (!rightForced op v1) = true
+      · rw [if_pos hf, if_pos hf]; cases evalBin op v1 (Val.null Ty.none) <;> rfl
+      · rw [if_neg hf, if_neg hf, ← ihb hb]
+        cases pureI vars csts b with
+        | ok q =>
+          obtain ⟨v2, i2⟩ := q
+          simp only [valOf]
+          rw [hs]
+          cases evalBin op v1 v2 false <;> rfl
+        | err c a => rfl
+        | haz x => rfl
+        | unmodelled => rfl
+    | err c a => rfl
+    | haz x => rfl
+    | unmodelled => rfl
+
+/-- **Refinement against `LExpr.pure`** — what holds exactly: for every expression without `==`/`!=`,
+storage-level evaluation yields the outcome of the pure value-level evaluator of Model/Store.lean. (With
+`==`/`!=` the statement is false for `LExpr.pure`, which has no notion of cell identity: witness below;
+`eval_refines` is the full statement.) -/
+theorem eval_refines_pure_partial (e : LExpr) (σ : Store) (hinv : FlagInv σ)
+    (hwf : WfIdx σ.vars.length σ.csts.length e) (hq : EqFree e) :
+    valOf (absRes (evalL e σ)) = LExpr.pure (σ.vars.map (·.val)) (σ.csts.map (·.val)) e := by
+  rw [eval_refines e σ hinv hwf, pureI_eq_pure _ _ e hq]; rfl
+
+/-- Negation witness for the unrestricted statement against `LExpr.pure`: with `x0` a table, `x0 == x0`
+evaluates to `true` at storage level (same collection address; the real interpreter prints `true` for
+`t = tab(2,0); print t == t;`), while `LExpr.pure` — two values, no identity — says `false`. -/
+example :
+    let σ : Store := { vars := [⟨.tab (Ty.int.levelUp) [] [.int 0, .int 0], true⟩], csts := [], pool := [], wm := 0 }
+    FlagInv σ ∧ WfIdx 1 0 (.bin .eq (.var 0) (.var 0)) ∧
+    valOf (absRes (evalL (.bin .eq (.var 0) (.var 0)) σ)) = .ok (.bool true) ∧
+    LExpr.pure (σ.vars.map (·.val)) (σ.csts.map (·.val)) (.bin .eq (.var 0) (.var 0)) = .ok (.bool false) := by
+  refine ⟨⟨by simp, by simp⟩, ⟨by decide, by decide⟩, rfl, rfl⟩
+
+/-- Non-vacuity of `eval_refines`: `-(x0 + c1) * x0` reuses the temporary of `x0 + c1` twice (LVAL1 of the
+negation, LVAL2 of the product) and the result cell holds the value-level result −30. -/
+example :
+    let σ : Store := { vars := [⟨.int 5, true⟩], csts := [⟨.null Ty.none, true⟩, ⟨.int 1, true⟩], pool := [], wm := 0 }
+    let e : LExpr := .bin .mul (.un .neg (.bin .add (.var 0) (.cst 1))) (.var 0)
+    FlagInv σ ∧ WfIdx σ.vars.length σ.csts.length e ∧
+    ∃ σ', evalL e σ = .ok (.tmp 0, σ') ∧ σ'.wm = 1 ∧ absRes (evalL e σ) = .ok (.int (-30), none) := by
+  refine ⟨⟨by simp, by simp⟩, ⟨⟨by decide, by decide⟩, by decide⟩, _, rfl, rfl, rfl⟩
+
+/-- The index hypothesis `WfIdx` is needed (model-only artefact: the parser never produces a symbol without a
+slot): `~x7` in a store without variables "writes" its result through the non-existent slot and reads back the
+default cell — an untyped null where the value-level result is the integer null. -/
+example :
+    let σ : Store := { vars := [], csts := [], pool := [], wm := 0 }
+    FlagInv σ ∧ absRes (evalL (.un .not (.var 7)) σ) = .ok (.null Ty.none, some (.var 7)) ∧
+    pureI (vals σ.vars) (vals σ.csts) (.un .not (.var 7)) = .ok (.null Ty.int, none) := by
+  refine ⟨⟨by simp, by simp⟩, rfl, rfl⟩
+
+/-- **Evaluating one expression after another**: after ANY successful evaluation of `e1`, evaluating `e2`
+gives exactly the outcome it gives in the original store — same error or same value and identity: the
+temporaries `e1` left behind do not leak into `e2` — and the result cell of `e1` is not clobbered by `e2`
+(it keeps its content: temporaries handed out earlier in the statement stay valid). -/
+theorem eval_after (e1 e2 : LExpr) (σ σ1 : Store) (ℓ1 : Loc) (hinv : FlagInv σ)
+    (hwf1 : WfIdx σ.vars.length σ.csts.length e1) (hwf2 : WfIdx σ.vars.length σ.csts.length e2)
+    (h1 : evalL e1 σ = .ok (ℓ1, σ1)) :
+    absRes (evalL e2 σ1) = absRes (evalL e2 σ) ∧
+    ∀ ℓ2 σ2, evalL e2 σ1 = .ok (ℓ2, σ2) → σ2.get ℓ1 = σ1.get ℓ1 := by
+  obtain ⟨x1, k1⟩ := eval_pool_discipline e1 σ σ1 ℓ1 hinv hwf1 h1
+  have inv1 := x1.flagInv hinv
+  have hwf2' : WfIdx σ1.vars.length σ1.csts.length e2 := by rw [x1.vars, x1.csts]; exact hwf2
+  refine ⟨?_, ?_⟩
+  · rw [eval_refines e2 σ1 inv1 hwf2', eval_refines e2 σ hinv hwf2, x1.vars, x1.csts]
+  · intro ℓ2 σ2 h2
+    obtain ⟨x2, _⟩ := eval_pool_discipline e2 σ1 σ2 ℓ2 inv1 hwf2' h2
+    exact (k1.ext x2).2
+
+/-- **Evaluating the same expression twice in the same state gives equal results**: the second
+evaluation (from the store the first one left, temporaries included) succeeds too, its result cell holds
+the same value and is the same named cell (or again a temporary), and the first result is still intact. -/
+theorem eval_twice_equal (e : LExpr) (σ σ' : Store) (ℓ : Loc) (hinv : FlagInv σ)
+    (hwf : WfIdx σ.vars.length σ.csts.length e) (h1 : evalL e σ = .ok (ℓ, σ')) :
+    ∃ ℓ2 σ'', evalL e σ' = .ok (ℓ2, σ'') ∧ (σ''.get ℓ2).val = (σ'.get ℓ).val ∧ cellId ℓ2 = cellId ℓ ∧
+      σ''.get ℓ = σ'.get ℓ := by
+  obtain ⟨ha, hb⟩ := eval_after e e σ σ' ℓ hinv hwf hwf h1
+  rw [h1] at ha
+  cases h2 : evalL e σ' with
+  | ok p =>
+    obtain ⟨ℓ2, σ''⟩ := p
+    rw [h2] at ha
+    simp only [absRes] at ha
+    have := Res.ok.inj ha
+    exact ⟨ℓ2, σ'', rfl, (Prod.mk.inj this).1, (Prod.mk.inj this).2, hb ℓ2 σ'' h2⟩
+  | err c a => rw [h2] at ha; cases ha
+  | haz x => rw [h2] at ha; cases ha
+  | unmodelled => rw [h2] at ha; cases ha
+
+/-- A failing evaluation fails identically when repeated after any successful evaluation. -/
+theorem eval_error_repeatable (e1 e2 : LExpr) (σ σ1 : Store) (ℓ1 : Loc) (c : Nat) (a : Bytes) (hinv : FlagInv σ)
+    (hwf1 : WfIdx σ.vars.length σ.csts.length e1) (hwf2 : WfIdx σ.vars.length σ.csts.length e2)
+    (h1 : evalL e1 σ = .ok (ℓ1, σ1)) (h2 : evalL e2 σ = .err c a) : evalL e2 σ1 = .err c a := by
+  have := (eval_after e1 e2 σ σ1 ℓ1 hinv hwf1 hwf2 h1).1
+  rw [h2] at this
+  cases h : evalL e2 σ1 with
+  | ok p => rw [h] at this; cases this
+  | err c' a' => rw [h] at this; simp only [absRes] at this; injection this with e1 e2; rw [e1, e2]
+  | haz x => rw [h] at this; cases this
+  | unmodelled => rw [h] at this; cases this
+
+/-! ### Assignment copies -/
+
+/-- **`x_i = <result at ℓ>` copies** (Context::storeVariable): afterwards slot `i` holds the value that
+was at `ℓ`, with the LVALUE flag; the invariant holds; every constant and every other variable slot is
+exactly as before. (A temporary is swapped in, an lvalue is cloned: either way a value copy.) -/
+theorem assign_copies (σ : Store) (i : Nat) (ℓ : Loc) (hinv : FlagInv σ) (hi : i < σ.vars.length) :
+    ((storeVar σ i ℓ).get (.var i)).val = (σ.get ℓ).val ∧ ((storeVar σ i ℓ).get (.var i)).lv = true ∧
+    FlagInv (storeVar σ i ℓ) ∧ (storeVar σ i ℓ).csts = σ.csts ∧
+    (storeVar σ i ℓ).vars.length = σ.vars.length ∧
+    (∀ j, j ≠ i → (storeVar σ i ℓ).get (.var j) = σ.get (.var j)) := by
+  obtain ⟨p1, p2, p3⟩ := store_preserves σ i ℓ hinv
+  have hval : ((storeVar σ i ℓ).get (.var i)).val = (σ.get ℓ).val ∧
+      (storeVar σ i ℓ).vars.length = σ.vars.length := by
+    unfold storeVar
+    split
+    · rename_i hl
+      cases ℓ with
+      | var k =>
+        have hk : ¬ k < σ.vars.length := by
+          intro hk; have := flag_var hinv hk; rw [hl] at this; cases this
+        have hki : k ≠ i := by omega
+        constructor
+        · simp [Store.set, Store.get, List.getD, hi, hki]
+        · simp [Store.set]
+      | cst k => constructor <;> simp [Store.set, Store.get, List.getD, hi]
+      | tmp k => constructor <;> simp [Store.set, Store.get, List.getD, hi]
+    · split
+      · rename_i h; subst h; exact ⟨rfl, rfl⟩
+      · constructor <;> simp [Store.set, Store.get, List.getD, hi]
+  refine ⟨hval.1, ?_, p1, p2, hval.2, p3⟩
+  have : i < (storeVar σ i ℓ).vars.length := by rw [hval.2]; exact hi
+  exact flag_var p1 this
+
+/-- **After `b = a` the two variables are independent**: `b` holds `a`'s value, `a` is unchanged; any later
+assignment into `a` (of any result cell `ℓ`) leaves `b` as it is, and any later assignment into `b` leaves
+`a` as it is. -/
+theorem assign_independent (σ : Store) (a b : Nat) (hinv : FlagInv σ) (hab : a ≠ b)
+    (hb : b < σ.vars.length) :
+    let σ1 := storeVar σ b (.var a)
+    (σ1.get (.var b)).val = (σ.get (.var a)).val ∧ σ1.get (.var a) = σ.get (.var a) ∧
+    (∀ ℓ, (storeVar σ1 a ℓ).get (.var b) = σ1.get (.var b)) ∧
+    (∀ ℓ, (storeVar σ1 b ℓ).get (.var a) = σ1.get (.var a)) := by
+  intro σ1
+  obtain ⟨c1, _, c3, _, _, c6⟩ := assign_copies σ b (.var a) hinv hb
+  refine ⟨c1, c6 a hab, ?_, ?_⟩
+  · intro ℓ; exact (store_preserves σ1 a ℓ c3).2.2 b (Ne.symm hab)
+  · intro ℓ; exact (store_preserves σ1 b ℓ c3).2.2 a hab
+
+/-- One assignment statement `x_i = e;` at storage level: evaluate, store, end of statement. -/
+def assign (σ : Store) (i : Nat) (e : LExpr) : Res Store :=
+  match evalL e σ with
+  | .ok (ℓ, σ') => .ok (endStatement (storeVar σ' i ℓ))
+  | .err c a => .err c a
+  | .haz h => .haz h
+  | .unmodelled => .unmodelled
+
+/-- A sequence of assignment statements. -/
+def runAssigns : List (Nat × LExpr) → Store → Res Store
+  | [], σ => .ok σ
+  | (i, e) :: rest, σ =>
+    match assign σ i e with
+    | .ok σ' => runAssigns rest σ'
+    | .err c a => .err c a
+    | .haz h => .haz h
+    | .unmodelled => .unmodelled
+
+/-- **An assignment statement, end to end**: `x_i = e;` puts into slot `i` exactly the value-level result
+of `e` in the state before the statement, changes no other variable and no constant, keeps the invariant. -/
+theorem assign_refines (σ σ' : Store) (i : Nat) (e : LExpr) (hinv : FlagInv σ) (hi : i < σ.vars.length)
+    (hwf : WfIdx σ.vars.length σ.csts.length e) (h : assign σ i e = .ok σ') :
+    valOf (pureI (vals σ.vars) (vals σ.csts) e) = .ok (σ'.get (.var i)).val ∧
+    FlagInv σ' ∧ σ'.csts = σ.csts ∧ σ'.vars.length = σ.vars.length ∧
+    (∀ j, j ≠ i → σ'.get (.var j) = σ.get (.var j)) := by
+  unfold assign at h
+  cases he : evalL e σ with
+  | ok p =>
+    obtain ⟨ℓ, σ1⟩ := p
+    rw [he] at h
+    have h' := (Res.ok.inj h).symm
+    subst h'
+    obtain ⟨f1, inv1⟩ := eval_frame e σ σ1 ℓ hinv he
+    have hi1 : i < σ1.vars.length := by rw [f1.1]; exact hi
+    obtain ⟨c1, _, c3, c4, c5, c6⟩ := assign_copies σ1 i ℓ inv1 hi1
+    have hr := eval_refines e σ hinv hwf
+    rw [he] at hr
+    refine ⟨?_, c3, ?_, ?_, ?_⟩
+    · rw [← hr]; simp only [absRes, valOf]
+      congr 1; exact c1.symm
+    · exact c4.trans f1.2
+    · exact c5.trans (by rw [f1.1])
+    · intro j hj
+      have := c6 j hj
+      have hv := variable_stable e σ σ1 ℓ j hinv he
+      exact this.trans hv
+  | err c a => rw [he] at h; cases h
+  | haz x => rw [he] at h; cases h
+  | unmodelled => rw [he] at h; cases h
+
+/-- **No later change is visible through a copy**: whatever sequence of assignment statements runs —
+their right-hand sides may read any variable, `b` included — as long as none of them assigns to `b`, slot
+`b` is exactly what it was (so after `b = a`, later changes of `a` never show through `b`); the constants
+keep their meaning and the invariant holds at the end. -/
+theorem assigns_leave_others (prog : List (Nat × LExpr)) : ∀ (σ σ' : Store) (b : Nat), FlagInv σ →
+    (∀ p ∈ prog, p.1 ≠ b) → runAssigns prog σ = .ok σ' →
+    σ'.get (.var b) = σ.get (.var b) ∧ σ'.csts = σ.csts ∧ FlagInv σ' := by
+  induction prog with
+  | nil =>
+    intro σ σ' b hinv _ h
+    cases h
+    exact ⟨rfl, rfl, hinv⟩
+  | cons st rest ih =>
+    intro σ σ' b hinv hb h
+    obtain ⟨i, e⟩ := st
+    unfold runAssigns at h
+    cases ha : assign σ i e with
+    | ok σ1 =>
+      rw [ha] at h
+      dsimp only at h
+      have hib : i ≠ b := hb (i, e) (List.mem_cons_self)
+      -- one statement
+      have step : σ1.get (.var b) = σ.get (.var b) ∧ σ1.csts = σ.csts ∧ FlagInv σ1 := by
+        unfold assign at ha
+        cases he : evalL e σ with
+        | ok p =>
+          obtain ⟨ℓ, σe⟩ := p
+          rw [he] at ha
+          have h' := (Res.ok.inj ha).symm
+          subst h'
+          obtain ⟨f1, inv1⟩ := eval_frame e σ σe ℓ hinv he
+          obtain ⟨s1, s2, s3⟩ := store_preserves σe i ℓ inv1
+          refine ⟨?_, s2.trans f1.2, s1⟩
+          exact (s3 b (Ne.symm hib)).trans (variable_stable e σ σe ℓ b hinv he)
+        | err c a => rw [he] at ha; cases ha
+        | haz x => rw [he] at ha; cases ha
+        | unmodelled => rw [he] at ha; cases ha
+      obtain ⟨r1, r2, r3⟩ := ih σ1 σ' b step.2.2 (fun p hp => hb p (List.mem_cons_of_mem _ hp)) h
+      exact ⟨r1.trans step.1, r2.trans step.2.1, r3⟩
+    | err c a => rw [ha] at h; cases h
+    | haz x => rw [ha] at h; cases h
+    | unmodelled => rw [ha] at h; cases h
+
+/-- Non-vacuity: `x1 = x0; x0 = x0 + c1; x0 = -x0;` runs, and `x1` still holds the old value 5 of `x0`
+while `x0` is −6. -/
+example :
+    let σ : Store := { vars := [⟨.int 5, true⟩, ⟨.null Ty.none, true⟩], csts := [⟨.null Ty.none, true⟩, ⟨.int 1, true⟩], pool := [], wm := 0 }
+    let prog : List (Nat × LExpr) := [(1, .var 0), (0, .bin .add (.var 0) (.cst 1)), (0, .un .neg (.var 0))]
+    FlagInv σ ∧ ∃ σ', runAssigns prog σ = .ok σ' ∧ (σ'.get (.var 1)).val = .int 5 ∧ (σ'.get (.var 0)).val = .int (-6) := by
+  refine ⟨⟨by simp, by simp⟩, _, rfl, rfl, rfl⟩
 
 end BlocV.C05
